@@ -77,6 +77,10 @@ pub struct Scenario {
     /// the client percent-encodes '+' in document URIs
     #[serde(default)]
     pub uri_plus_encoded: bool,
+    /// the second folder's own oal.toml (None: the same text as the first folder's); may be
+    /// broken (no main, not TOML) - the server then has nothing to evaluate there
+    #[serde(default)]
+    pub config_b: Option<String>,
 }
 
 fn one() -> i32 {
@@ -501,7 +505,7 @@ impl<'w> Exec<'w> {
         world.reset(&scn.config, &scn.disk);
         world.plus_encoded.set(scn.uri_plus_encoded);
         if scn.folder_b {
-            world.write("fb/oal.toml", &scn.config);
+            world.write("fb/oal.toml", scn.config_b.as_deref().unwrap_or(&scn.config));
         }
         let client = ClientModel {
             disk: scn.disk.clone(),
@@ -1121,7 +1125,7 @@ pub fn probe(scn: &Scenario, k: usize) -> Option<String> {
         world.reset(&scn2.config, &scn2.disk);
         world.plus_encoded.set(scn2.uri_plus_encoded);
         if scn2.folder_b {
-            world.write("fb/oal.toml", &scn2.config);
+            world.write("fb/oal.toml", scn2.config_b.as_deref().unwrap_or(&scn2.config));
         }
         let mut client = ClientModel {
             disk: scn2.disk.clone(),
